@@ -178,7 +178,7 @@ def parts(tier):
     if tier == "quick":
         return [CH("paths2", "vflib.props.c18:scen_convert", {"depth": 2, "atoms": ["int", "float", "bool", "date", "datetime"]}, shards=16, timeout=170, path_timeout=30),
                 CH("paths3_int", "vflib.props.c18:scen_convert", {"depth": 3, "atoms": ["int", "time"]}, shards=16, timeout=170, path_timeout=30)]
-    return [CH("paths3", "vflib.props.c18:scen_convert", {"depth": 3}, shards=16, timeout=250, path_timeout=30)]
+    return [CH("paths3", "vflib.props.c18:scen_convert", {"depth": 3}, shards=16, timeout=150, path_timeout=30)]
 
 
 META = {
